@@ -38,6 +38,45 @@ const (
 	DateTime    = "2006-01-02 15:04:05"
 )
 
+const (
+	January   = time.January
+	February  = time.February
+	March     = time.March
+	April     = time.April
+	May       = time.May
+	June      = time.June
+	July      = time.July
+	August    = time.August
+	September = time.September
+	October   = time.October
+	November  = time.November
+	December  = time.December
+
+	Sunday    = time.Sunday
+	Monday    = time.Monday
+	Tuesday   = time.Tuesday
+	Wednesday = time.Wednesday
+	Thursday  = time.Thursday
+	Friday    = time.Friday
+	Saturday  = time.Saturday
+
+	RFC822     = time.RFC822
+	RFC850     = time.RFC850
+	RFC1123Z   = time.RFC1123Z
+	Stamp      = time.Stamp
+	StampMilli = time.StampMilli
+	StampMicro = time.StampMicro
+	StampNano  = time.StampNano
+	DateOnly   = "2006-01-02"
+	TimeOnly   = "15:04:05"
+)
+
+type ParseError = time.ParseError
+
+func ParseInLocation(layout, v string, l *time.Location) (time.Time, error) {
+	return time.ParseInLocation(layout, v, l)
+}
+
 var (
 	UTC   = time.UTC
 	Local = time.Local
